@@ -438,14 +438,32 @@ func (x *Exec) readOnlyCall(fn *ssa.Function) bool {
 	scalar := true
 	res := fn.Signature.Results()
 	for i := 0; i < res.Len(); i++ {
-		switch u := types.Unalias(res.At(i).Type()).Underlying().(type) {
-		case *types.Basic:
-			_ = u
-		default:
+		if !pointerFree(res.At(i).Type(), 0) {
 			scalar = false
 		}
 	}
 	return scalar || allocFree(x, fn, map[*ssa.Function]bool{})
+}
+
+// pointerFree: values of the type carry no reference (basic types and structs/arrays of such).
+func pointerFree(t types.Type, depth int) bool {
+	if depth > 4 {
+		return false
+	}
+	switch u := types.Unalias(t).Underlying().(type) {
+	case *types.Basic:
+		return u.Kind() != types.UnsafePointer
+	case *types.Struct:
+		for i := 0; i < u.NumFields(); i++ {
+			if !pointerFree(u.Field(i).Type(), depth+1) {
+				return false
+			}
+		}
+		return true
+	case *types.Array:
+		return pointerFree(u.Elem(), depth+1)
+	}
+	return false
 }
 
 func allocFree(x *Exec, fn *ssa.Function, seen map[*ssa.Function]bool) bool {
